@@ -455,9 +455,24 @@ def AppendAllConcatStatement : Prop :=
 
 /-- `np.union1d` on the values of an unpacked parameter: exactly the values of either operand,
     strictly increasing (hence without duplicates). -/
-theorem union_grid_spec (a b : List Int) :
+theorem union_grid_spec (a b : List Rat) :
     (∀ x, x ∈ union1d a b ↔ x ∈ a ∨ x ∈ b) ∧ (union1d a b).Pairwise (· < ·) :=
   ⟨mem_union1d a b, sorted_union1d a b⟩
+
+/-- values that are distinct but close (noise powers 1·10⁻⁹, 2·10⁻⁹, 4·10⁻⁹; carrier frequencies
+    2.4·10⁹ and 2.40001·10⁹) stay distinct in the union grid, are found at their own index, and a
+    close but absent value is *absent* (`ValueError`, swallowed by `combine` as "no result for this
+    combination") — an instance of `union_grid_spec` / `pack_index_spec`; parameter values are
+    exact rationals in the model, so no tolerance can enter. -/
+theorem close_values_stay_distinct :
+    union1d [1/1000000000, 2/1000000000] [2/1000000000, 4/1000000000]
+        = [1/1000000000, 2/1000000000, 4/1000000000]
+      ∧ packIndex [[1/1000000000, 2/1000000000, 4/1000000000]] [2/1000000000] = .ok 1
+      ∧ packIndex [[1/1000000000, 4/1000000000]] [2/1000000000] = .error .ValueError
+      ∧ union1d [2400000000] [2400010000] = [2400000000, 2400010000]
+      ∧ packIndex [[2400000000]] [2400010000] = .error .ValueError
+      ∧ union1d [2, 3] [2, 5/2] = [2, 5/2, 3] := by
+  decide +kernel
 
 /-- `combine_simulation_parameters`: raises `RuntimeError` unless parameter names, unpacked names
     and fixed values agree; otherwise fixed parameters are kept and every unpacked parameter gets
@@ -484,7 +499,7 @@ theorem combine_params_spec (p1 p2 : Params) :
 /-- `get_pack_indexes` of a full combination: the index it returns is the position of the
     combination in the enumeration order of `get_unpacked_params_list`; it raises (`ValueError`)
     exactly when the combination is not in the operand's grid. -/
-theorem pack_index_spec (vals : List (List Int)) (c : List Int) (hlen : c.length = vals.length) :
+theorem pack_index_spec (vals : List (List Rat)) (c : List Rat) (hlen : c.length = vals.length) :
     (∀ i, packIndex vals c = .ok i → (product vals)[i]? = some c)
       ∧ (∀ e, packIndex vals c = .error e → e = .ValueError ∧ c ∉ product vals) :=
   ⟨fun i h => packIndex_ok vals c i hlen h, fun e h => packIndex_error vals c e hlen h⟩
@@ -505,7 +520,7 @@ theorem combine_results_spec (m m' : Mach) (s1 s2 : Nat) (x1 x2 : Sim)
           dictGet? x1.dict row.1 = some l1 ∧ dictGet? x2.dict row.1 = some l2
           ∧ listAt m l1 = a0 :: tl ∧ m.res[a0]? = some r0
           ∧ row.2.length = (product (p.unp.map (·.2))).length
-          ∧ ∀ (k : Nat) (c : List Int), (product (p.unp.map (·.2)))[k]? = some c →
+          ∧ ∀ (k : Nat) (c : List Rat), (product (p.unp.map (·.2)))[k]? = some c →
               ∃ r : Res, row.2[k]? = some r
                 ∧ cellOf m (fresh row.1 r0.ty false r0.counts.length) (listAt m l1) (listAt m l2)
                     (x1.params.unp.map (·.2)) (x2.params.unp.map (·.2)) c = .ok r := by
@@ -521,8 +536,8 @@ theorem combine_results_spec (m m' : Mach) (s1 s2 : Nat) (x1 x2 : Sim)
 /-- **… (content of a cell)**: for a combination present in both operands, in one, or in none,
     the cell is the merge of the operands' results of that combination into an empty object
     (no exception when the results have the operand's name/type/array length). -/
-theorem combine_cell_law (m : Mach) (f : Res) (l1 l2 : List Nat) (v1 v2 : List (List Int))
-    (c : List Int) (hf : f.acc = false) :
+theorem combine_cell_law (m : Mach) (f : Res) (l1 l2 : List Nat) (v1 v2 : List (List Rat))
+    (c : List Rat) (hf : f.acc = false) :
     (∀ i1 a1 r1 i2 a2 r2, packIndex v1 c = .ok i1 → l1[i1]? = some a1 → m.res[a1]? = some r1 →
         packIndex v2 c = .ok i2 → l2[i2]? = some a2 → m.res[a2]? = some r2 →
         CompatL f r1 → CompatL f r2 →
